@@ -22,6 +22,7 @@ type reSpec struct {
 	HSeed uint64 `json:"history_seed"`
 	MSeed uint64 `json:"mutation_seed"`
 	Steps int    `json:"steps"`
+	Root  bool   `json:"root"` // the steps are life-cycle steps on the root object itself (vg.MutateRoot)
 }
 
 type reStep struct {
@@ -57,7 +58,12 @@ func runReencode(sp reSpec) (steps []reStep, ok bool) {
 		st.out = vh.GuardTimeout(implDeadline, func() {
 			if k > 0 {
 				var path []vg.PathNode
-				path, st.what = vg.MutateInPlace(r, g, v, gen)
+				if sp.Root {
+					st.what = vg.MutateRoot(r, g, v, gen)
+					path = []vg.PathNode{{G: g, V: v}}
+				} else {
+					path, st.what = vg.MutateInPlace(r, g, v, gen)
+				}
 				defer func() {
 					// which object on the path serves stale bytes (deepest first)?
 					for i := len(path) - 1; i >= 0; i-- {
@@ -97,6 +103,20 @@ func reencodeStage(env *vh.Env, rep *vh.Report, rng *vh.Rng, specs []reSpec) int
 			}
 			specs = append(specs, sp)
 		}
+		// life cycles of ONE container object: encode, mutate it through its own public methods (Put*, PutAll,
+		// Clear, Clear-then-refill under the same keys with lookups around it, Add / Set …), encode again, …
+		nl := 500
+		if env.Thorough {
+			nl = 6000
+		}
+		small := vg.New(rng.Fork(), vg.Opt{Depth: 2, Width: 3, Nil: true})
+		for i := 0; i < nl; i++ {
+			v := small.Container([]string{"m", "m", "im", "l"}[rng.Intn(4)], 2)
+			if i%5 == 0 && v.K == "m" { // the single-entry map: first key = last key
+				v = &vg.V{K: "m", Ks: [][]byte{[]byte("only")}, L: []*vg.V{{K: "T", Bs: []byte("before")}}}
+			}
+			specs = append(specs, reSpec{Value: v.LineX(), MSeed: rng.U64() | 1, Steps: 3 + rng.Intn(6), Root: true})
+		}
 	}
 	var lines []string
 	var all [][]reStep
@@ -127,7 +147,7 @@ func reencodeStage(env *vh.Env, rep *vh.Report, rng *vh.Rng, specs []reSpec) int
 	for i, steps := range all {
 		sp := specs[i]
 		for k, st := range steps {
-			replay := map[string]interface{}{"value": vh.Clip(sp.Value, 3000), "history_seed": sp.HSeed, "mutation_seed": sp.MSeed, "steps": sp.Steps,
+			replay := map[string]interface{}{"value": vh.Clip(sp.Value, 3000), "history_seed": sp.HSeed, "mutation_seed": sp.MSeed, "steps": sp.Steps, "root": sp.Root,
 				"failing_step": k, "mutation": st.what, "content_now": vh.Clip(st.line, 2000)}
 			top := "?"
 			if len(steps) > 0 {
@@ -163,7 +183,11 @@ func reencodeStage(env *vh.Env, rep *vh.Report, rng *vh.Rng, specs []reSpec) int
 					if who == "" {
 						who = top
 					}
-					rep.Fail("property", "WriteValue:"+who+":stale-bytes-after-in-place-mutation",
+					key := ":stale-bytes-after-in-place-mutation"
+					if sp.Root {
+						key = ":wrong-bytes-after-life-cycle-step"
+					}
+					rep.Fail("property", "WriteValue:"+who+key,
 						"after "+st.what+" on a reachable child the object encodes to bytes that are not the encoding of its current content (a freshly built equal value encodes correctly)", replay)
 				} else {
 					rep.Fail("property", "WriteValue:"+top+":bytes-differ-from-reference-after-mutation", "bytes differ from the reference encoder after "+st.what, replay)
